@@ -54,6 +54,10 @@ def run(F, R):
     # V9: the socket queues run in the negotiated modes (C08.H3)
     from .C08 import queue_modes_rule
     queue_modes_rule(F, R, M, 'V9', ['device::socket'])
+    # V11: packets and credit updates keep being seen after the 16-bit ring indices wrap (65536 completions on one queue): wrap-safe
+    # counters and the folded completion test (C03.E5 / E9)
+    from .C03 import wrap_rule
+    wrap_rule(F, R, 'V11')
     v5_fwd(F, R)
     v6_ring(F, R)
     v6b_is_empty(F, R)
